@@ -9,46 +9,5 @@ import json,sys
 c=json.load(open('/tmp/seed-out/%s/confirm.json'%sys.argv[1])); sys.exit(0 if c.get('confirmed') else 1)
 PY
   python3 tools/collect_seed.py /tmp/seed-out/$d $ids
-done <<'LIST'
-C01/m1 C01 C02
-C01/m2 C01
-C02/m1 C02 C01
-C02/m2 C02
-C03/m1 C03
-C03/m2 C03 C13
-C04/m1 C04 C03
-C04/m2 C04 C05 C07
-C05/m1 C05 C04 C07
-C05/m2 C05
-C06/m1 C06 C13
-C06/m2 C06 C05
-C07/m1 C07 C04 C05
-C07/m2 C07
-C08/m1 C08
-C08/m2 C08 C09
-C09/m1 C09
-C09/m2 C09
-C10/m1 C10 C11
-C10/m2 C10
-C11/m1 C11 C10
-C11/m2 C11 C10
-C12/m1 C12
-C12/m2 C12
-C13/m1 C13 C03
-C13/m2 C13 C03
-C14/m1 C14
-C14/m2 C14
-C15/m1 C15
-C15/m2 C15
-C16/m1 C16
-C16/m2 C16
-C17/m1 C17
-C17/m2 C17
-C18/m1 C18
-C18/m2 C18
-C19/m1 C19
-C19/m2 C19
-C20/m1 C20
-C20/m2 C20
-LIST
+done < <(grep -E "${1:-.}" tools/seed_list.txt)
 python3 tools/seed_table.py
